@@ -753,6 +753,8 @@ package security
 //@   assert before call ImportSecSessionInfo #1 policy_is_the_exported_info: [C16] arg0 == sessionInfo
 //@   assert before call deriveClaimKeyInfo #1 key_from_the_minted_secret: [C16] arg0 == policy && arg1 == secret
 //@   assert before call NewSessionEntry #1 entry_of_the_claim: [C16] arg0 == sessionID && arg2 == keyInfo && arg2 != nil && arg3 == policy
+//@   assert before call NewSessionEntry #1 entry_expiry_is_the_claims: [C16] arg4 == lastres_claimExpiration
+//@   assert before call claimExpiration #1 expiry_of_the_registered_policy: [C16] arg0 == policy
 //@   assert before call SessionCache).Store #1 registers_the_entry: [C16] arg1 == entry && arg0 == cache
 //@   ensures claim_has_the_parsed_shape: [C16] err == nil ==> result != nil && result.sessionID == sessionID && claimShape(result.claimID, sessionID, sessionInfo, secret) && len(secret) == 64
 //@   ensures none_on_error: [C16] err != nil ==> result == nil
